@@ -336,7 +336,7 @@ def origin_mentions(prog, q, e, pred, region, root=None, depth=0, _seen=None):
     return False
 
 
-def blank_guard_atoms(prog, path, bid):
+def blank_guard_atoms(prog, path, bid, ch_expr=None):
     """what the guards of block `bid` establish about the character that is inserted there, in terms of the two tests
     `is_whitespace(ch)` and `ch == NUL`: a list of 'ws' / 'nul' (the test is known to be false) or 'other:<cond>'.  A
     guard that calls a crate-local boolean helper (`!is_blank(ch)`) is decided through exprs.bool_function: it
@@ -378,4 +378,17 @@ def blank_guard_atoms(prog, path, bid):
                         out.append(a_ if not sat[0][i_] else "other:%s must hold" % a_)
                     continue
         out.append("other:" + _es(c)[:50])
+    # the loop may run over an already filtered iterator (`for (x, ch) in chars.enumerate().filter(P)`): P's tests count too
+    if ch_expr is not None:
+        from .exprs import mentions as _m, closure_of as _co
+        filt = []
+        _m(ch_expr, lambda z: z[0] == "call" and re.search(r"Iterator::filter$", z[1]) and len(z[2]) == 2 and filt.append(z) and False)
+        for f in filt:
+            cl, _caps = _co(_s(f[2][1]))
+            if cl in prog.bodies:
+                at, tb = _bf(prog, cl, _atom)
+                if at is not None and at and all(tb[k] == all(not v for v in k) for k in tb):
+                    out.extend(at)
+                else:
+                    out.append("other:filter closure %s" % (str(tb)[:40] if at is None else "keeps more than non-blank characters"))
     return out
